@@ -27,6 +27,21 @@ def _owner_of(target):
     return None
 
 
+def _value_level(exprs, name):
+    """does `name` occur in exprs other than as the operand of a shape-only read (np.shape(x), len(x), x.shape, x.ndim, x.dtype)?"""
+    for e in exprs:
+        shape_only = set()
+        for n in ast.walk(e):
+            if isinstance(n, ast.Call) and ast.unparse(n.func) in ("np.shape", "numpy.shape", "len", "np.ndim", "np.size") and n.args and isinstance(n.args[0], ast.Name):
+                shape_only.add(id(n.args[0]))
+            if isinstance(n, ast.Attribute) and n.attr in ("shape", "ndim", "dtype", "size") and isinstance(n.value, ast.Name):
+                shape_only.add(id(n.value))
+        for n in ast.walk(e):
+            if isinstance(n, ast.Name) and n.id == name and isinstance(n.ctx, ast.Load) and id(n) not in shape_only:
+                return True
+    return False
+
+
 def memo_store_rule(run, ix, rule, prop, module_filter=None, floor=20):
     run.rule(rule, "a value stored by hand into `<o>._cache[key]` depends only on state the cache of `<o>` is keyed on: no read of `<o>.visual`, `<o>.metadata` or "
                    "`<o>.*_attributes` reaches the value unless the key folds that state in (hash of it)")
@@ -93,6 +108,47 @@ def memo_store_rule(run, ix, rule, prop, module_filter=None, floor=20):
             ok = not uncovered
             run.instance(rule, where, f"`{owner}._cache[{ast.unparse(key)[:30]}]` := `{ast.unparse(value)[:40]}`: unhashed owner state in the value: {uncovered or 'none'}", ok,
                          nontrivial=bool(hits) or True)
+            # a value computed from a DATA PARAMETER of the method (not the owner's state): the memo answers later calls made with
+            # other arguments unless the key - or a token stored alongside and compared on the way in - depends on that
+            # argument's value.  A token that looks at its shape only is positive evidence of a violation.
+            if ok and f.kind not in ("setter",) and f.name not in ("__init__", "__setstate__", "__setitem__") and owner in f.params[:1]:
+                pvals = [p_ for p_ in f.params[1:] if _value_level(exprs, p_)]
+                if pvals:
+                    others = [(k2, v2) for st2, o2, k2, v2 in stores if o2 == owner]
+                    tok_exprs = []
+                    for k2, v2 in others:
+                        for e_ in ([k2] if v2 is value else [k2, v2]):
+                            seen2, todo2 = set(), [e_]
+                            while todo2:
+                                x_ = todo2.pop()
+                                tok_exprs.append(x_)
+                                for nm in ast.walk(x_):
+                                    if isinstance(nm, ast.Name) and isinstance(nm.ctx, ast.Load) and nm.id not in seen2 and nm.id != owner:
+                                        seen2.add(nm.id)
+                                        todo2 += defs.get(nm.id, [])
+                    # reads of the memo compared with something derived from the parameter (`if cached[0] == f(p)`)
+                    for cmp_ in ast.walk(f.node):
+                        if isinstance(cmp_, ast.Compare) and "_cache" in ast.unparse(cmp_) or (isinstance(cmp_, ast.Compare) and any(
+                                isinstance(n_, ast.Name) and any("_cache" in ast.unparse(d_) for d_ in defs.get(n_.id, [])) for n_ in ast.walk(cmp_))):
+                            seen2, todo2 = set(), [cmp_]
+                            while todo2:
+                                x_ = todo2.pop()
+                                tok_exprs.append(x_)
+                                for nm in ast.walk(x_):
+                                    if isinstance(nm, ast.Name) and isinstance(nm.ctx, ast.Load) and nm.id not in seen2 and nm.id != owner:
+                                        seen2.add(nm.id)
+                                        todo2 += defs.get(nm.id, [])
+                    for p_ in pvals:
+                        mentioned = any(isinstance(n_, ast.Name) and n_.id == p_ for e_ in tok_exprs for n_ in ast.walk(e_))
+                        by_value = _value_level(tok_exprs, p_)
+                        if mentioned and not by_value:
+                            run.instance(rule, where, f"`{owner}._cache[{ast.unparse(key)[:30]}]` depends on the argument `{p_}`; the key / token looks at its shape only", False)
+                            run.violation(rule, where, f"`{f.qualname}` memoises `{ast.unparse(value)[:40]}` on `{owner}`, computed from its argument `{p_}`, but the key / validation token "
+                                          f"depends on `{p_}` only through its shape: a later call with other values of `{p_}` (the same points after a scale, another "
+                                          f"normal) is answered from the memo", key=key_of(f"{prop}-{rule}", f.qualname, "param-shape-only", p_))
+                        elif not mentioned:
+                            run.instance(rule, where, f"`{owner}._cache[{ast.unparse(key)[:30]}]` depends on the argument `{p_}`, which no key / token mentions - NOT decided "
+                                                      f"(may be validated elsewhere)", True, nontrivial=False)
             if not ok:
                 run.violation(rule, where, f"`{f.qualname}` stores `{ast.unparse(value)[:50]}` under `{owner}._cache[{ast.unparse(key)[:40]}]`, but the value is computed from "
                               f"`{owner}.{uncovered[0]}` (line {hits[0][1].lineno}), which the cache of `{owner}` is not keyed on: after that state changes (recolouring, new "
